@@ -40,7 +40,7 @@ pub fn gen_traversal(r: &mut Rng, w: &mut World) {
     }
 }
 
-pub fn gen_algorithm(r: &mut Rng, w: &mut World, allow_ksp: bool) {
+pub fn gen_algorithm(r: &mut Rng, w: &mut World, allow_ksp: bool, allow_yens_k2: bool) {
     let base = |r: &mut Rng| -> Value {
         match r.below(3) {
             0 => json!({"type": "dijkstra"}),
@@ -51,7 +51,7 @@ pub fn gen_algorithm(r: &mut Rng, w: &mut World, allow_ksp: bool) {
     w.algorithm = if allow_ksp && r.chance(0.25) {
         // Yen's algorithm with k >= 2 is a recorded finding (no-progress loop): keep it rare so runs stay fast
         let yens = r.chance(0.3);
-        let k = if yens && !r.chance(0.15) { 1 } else { r.range(1, 3) };
+        let k = if yens && (!allow_yens_k2 || !r.chance(0.15)) { 1 } else { r.range(1, 3) };
         let mut a = json!({"type": if yens { "yens" } else { "ksp_single_via" }, "k": k, "underlying": base(r)});
         if r.chance(0.4) {
             a["similarity"] = json!({"type": "edge_id_cosine_similarity", "threshold": many_digits(r, 0.3, 0.95)});
